@@ -333,6 +333,7 @@ class Session:
                 self.results.pop()
                 done[k] = (t, b) if q.holds else (t, None)
             if done[k][1] is not None:
+                rules.conditional = True  # aliases valid under the path condition only: no unconditional sampling
                 rules.aliases.append((t, done[k][1]))
                 rules.assumptions.append(t == done[k][1])
                 new += 1
@@ -344,7 +345,26 @@ class Session:
         if resolve_ifs:
             self.resolve_ifs(pc, rules, [A, B])
         cl = self.nf_claim(rules, A, B)
-        return self.prove(name, list(pc) + list(rules.assumptions), cl, **kw)
+        q = self.prove(name, list(pc) + list(rules.assumptions), cl, **kw)
+        if q.verdict == "unknown" and rules.samplers:
+            # the reduced polynomial is not identically zero: look for a counterexample with the rotation
+            # parameters concretised at random rational points of the variety (the rest is low degree)
+            import random as _random
+
+            rng = _random.Random(SEED + len(self.results))
+            for _ in range(4):
+                fix = []
+                for smp in rules.samplers:
+                    for nme, val in smp(rng).items():
+                        fix.append(z3.Real(nme) == z3.Q(val.numerator, val.denominator))
+                v, model, dt = self._solve([_z(a) for a in list(pc) + list(rules.assumptions)] + fix + [z3.Not(_z(cl))], 10000)
+                if v == "sat":
+                    q.verdict, q.model = "sat", model
+                    q.tags = dict(q.tags or {}, stage="concretised-rotation")
+                    if name in self.inconclusive:
+                        self.inconclusive.remove(name)
+                    break
+        return q
 
     def satisfiable(self, name, constraints, timeout_ms=None, tags=None):
         """Reachability / vacuity witness: the constraints must be satisfiable."""
